@@ -6,7 +6,8 @@ Regenerated on every run:
     (every occurrence), the default decoded-cap factor (every occurrence);
   * shape checks (one syntactic position each, exact text after ast normalisation): the per-hop validation and the
     redirect bound of _request_following_redirects, allow_redirects=False on every client.head/get, the cap guards of
-    both body readers, the Content-Length guard and the path decision of _fetch_with_probe, the retry clause of
+    both body readers, the Content-Length guard, the path decision and the Content-Encoding precedence (delivering
+    response first, probe as fallback) of _fetch_with_probe, the retry clause of
     fetch_url, the hedge budget, the ceil division of _compute_ranges;
   * a taint check: no f-string, logging call or raise in the module interpolates a URL variable unless it is wrapped
     in redact_url(...).
@@ -197,6 +198,10 @@ def generate(repo: Path) -> str:
     _expect(_raises_only(g.body), "_fetch_with_probe", "Content-Length guard does not raise")
     up = _assign_value(fp, "use_parallel", "_fetch_with_probe")
     _expect(ast.unparse(up) == "content_length is not None and 'bytes' in accept_ranges.lower() and (content_length >= config.parallel_threshold_bytes)", "_fetch_with_probe", f"path decision changed: {ast.unparse(up)}")
+    ce = [n for n in ast.walk(fp) if isinstance(n, ast.Assign) and len(n.targets) == 1 and ast.unparse(n.targets[0]) == "content_encoding"
+          and isinstance(n.value, ast.BoolOp)]
+    _expect(len(ce) == 1 and ast.unparse(ce[0].value) == "resp.headers.get('Content-Encoding', '') or content_encoding", "_fetch_with_probe",
+            "Content-Encoding precedence changed (the delivering response must come first): " + (ast.unparse(ce[0].value) if ce else "not found"))
     factors = []
     for n in ast.walk(fp):
         if isinstance(n, ast.IfExp) and ast.unparse(n.test) == "config.max_decompressed_bytes is None":
